@@ -198,6 +198,9 @@ def run(repo: Repo, rep: Report, tier: str) -> None:
     from . import c15
     c15.run(repo, rep, tier, only_completion=True, names={"overhead-count": "completion-marker", "overhead": "completion-marker", "order-flags": "completion-marker", "one-pdv": "completion-marker"})
 
+    # ---- every fragment the DIMSE layer emits reaches the wire: the P-DATA-TF codec moves each PDV (C01) ------------
+    from ..delegate import delegate as _delegate16
+    _delegate16(repo, rep, tier, "C01", ("primitive-pairs", "decoder-complete"), "completion-marker", "a PDV is dropped between the P-DATA primitive and the P-DATA-TF PDU (an empty last fragment - only its control header - is a PDV too): the fragment flagged 'last' never reaches the peer and the message is never completed", only=lambda f: "P_DATA_TF" in (f.get("function") or "") + str(f.get("key")))
     # ---- the transport writes every byte of every fragment ------------------------------------
     check_send_loop(repo, rep, "write-complete")
 
@@ -322,6 +325,16 @@ def check_send_loop(repo: Repo, rep: Report, rule: str) -> None:
         if good and resumes:
             rep.ok(rule, f"{fq} :: counter {counter}", "advanced by send()'s return value only")
     rep.floor("socket writes in AssociationSocket.send", n, 1)
+    # the loop relies on a *blocking* socket: with a timeout on the connected socket, send() raises as soon as the
+    # peer does not read for that long - in the middle of a PDU whose first bytes are already on the wire
+    from ..sock_model import ConnectModel
+
+    cm = ConnectModel(repo)
+    if len(cm.marks) == 1:
+        states = cm.classes(cm.marks[0])
+        rep.check(bool(states) and all(s_ == "none" for s_ in states), rule, "transport.AssociationSocket.connect", f"socket timeout once the connection is marked open: {states}", f"the requestor's connected socket keeps a timeout ({[s_ for s_ in states if s_ != 'none']}): a large message is announced and partly written, the peer stalls for longer than that timeout (it is busy in a handler), send() raises TimeoutError, the loop gives up (Evt17) and the rest of the message is never sent - a blocking socket would simply have waited", mod=tr, node=cm.marks[0].ast)
+    else:
+        rep.defer("transport.AssociationSocket.connect: the point where the connection is marked open was not found")
 
 
 def _pdv_header(st: ast.AST):
